@@ -136,6 +136,7 @@ type vfIdPCfg struct {
 	ExtraJWKS           []jose.JSONWebKey
 	NoRefreshRotation   bool
 	RefreshFails        bool // refresh grant answers 400 invalid_grant
+	ChallengeMethods    []string // code_challenge_methods_supported in the discovery document (nil: S256 and plain); read when an instance is built
 	RefreshOmitsNonce   bool // ID tokens from refresh grants carry no nonce (default: the original nonce is echoed, as OIDC Core 12.2 permits)
 	ClientID            string
 	Audience            interface{} // default: ClientID
@@ -227,10 +228,14 @@ func (i *vfIdP) serve(w http.ResponseWriter, r *http.Request) {
 	}
 	switch kind {
 	case "discovery":
+		methods := i.conf().ChallengeMethods
+		if methods == nil {
+			methods = []string{"S256", "plain"}
+		}
 		i.writeJSON(w, ev, 200, map[string]interface{}{
 			"issuer": i.Issuer, "authorization_endpoint": i.Issuer + "/authorize", "token_endpoint": i.Issuer + "/token",
 			"jwks_uri": i.Issuer + "/jwks", "userinfo_endpoint": i.Issuer + "/userinfo",
-			"id_token_signing_alg_values_supported": []string{"RS256"}, "code_challenge_methods_supported": []string{"S256", "plain"},
+			"id_token_signing_alg_values_supported": []string{"RS256"}, "code_challenge_methods_supported": methods,
 		})
 	case "jwks":
 		keys := []jose.JSONWebKey{{Key: &vfKeyA.PublicKey, KeyID: "k1", Algorithm: "RS256", Use: "sig"}}
